@@ -633,7 +633,7 @@ theorem complexValue_ctx (ho : FragOpts o) {m : MapSer} {s0 sk : St} {c : Nat}
 
 theorem plainOrQuoted_safe (ho : FragOpts o) (hf : SafeContract f) {n : List Char} (hn : isSafeStr n = true) :
     plainOrQuoted o f n = n := by
-  simp [plainOrQuoted, ho.quoteAll, hf.plain n hn, hf.shape n hn]
+  simp [plainOrQuoted, ho.quoteAll, hf.plain n hn, hf.value n o.yaml12 true hn, hf.shape n hn]
 
 /-- `serialize_newtype_variant` / `serialize_tuple_variant` / `serialize_struct_variant`: the key, the
 payload `P` in value position, `end_variant` -/
